@@ -102,3 +102,23 @@ def run_witnesses(pid, mod, root, chk):
         else:
             res["undetected"].append(f"{name}: {status}: {detail}")
     return res
+
+
+def run_negative(pid, root, chk, repo):
+    """Negative witnesses: the property's rules must report nothing new on behaviour-preserving
+    rewrites of the whole package (reformatting, renaming of locals, mirrored comparisons, an extra
+    no-op statement in every function).  Returns {transform: [unexpected findings]}."""
+    from .main import run_rules
+    from .refactor import TRANSFORMS, transform_sources
+
+    baseline = {f.key for f in chk.findings}
+    srcs = {rel: m.source for rel, m in repo.modules.items()}
+    out = {}
+    for name in TRANSFORMS:
+        try:
+            ov = transform_sources(root, srcs, name)
+            c2, _ = run_rules(pid, Repo(root, overrides=ov), "quick")
+            out[name] = [f"{f.rule} {f.func}: {f.message[:120]}" for f in c2.findings if f.key not in baseline]
+        except AnalysisError as e:
+            out[name] = [f"analysis error: {e}"]
+    return out
